@@ -426,7 +426,7 @@ def make_fault(rng, op_id, kind, key):
         f["nth"] = rng.choice([0, 0, 1, 2])
     if kind == "SHORT_WRITE":
         f["frac"] = rng.choice([0.0, 0.3, 0.9])
-    if kind in ("EMFILE", "RENAME_EIO"):
+    if kind in ("EMFILE", "RENAME_EIO", "UNLINK_EACCES"):
         f["nth"] = 0
     if kind == "HTTP_404":
         f["status"] = rng.choice([404, 404, 404, 410, 403, 401])
